@@ -58,7 +58,7 @@ def pick(sel, n):
 
 CTORS = ["atoms", "molecule", "molecule list", "ensemble", "empty+n_atoms"]
 OPS = ["none", "append geometry", "append molecule", "extend ensemble", "extend list", "extend empty list", "scale", "translate 1d", "translate 2d",
-       "rotate", "conformer coords=", "conformer charges=", "invert", "append twice"]
+       "rotate", "conformer coords=", "conformer charges=", "invert", "append twice", "extend generator", "extend iter(ensemble)", "extend tuple"]
 
 
 def build(ctor, nc, na):
@@ -103,6 +103,15 @@ def step(ens, op, nc, na, nc2, i):
     if k == "extend list":
         ens.extend([CartesianGeometry(n_atoms=na), Molecule(atoms(na))])
         return nc + 2
+    if k == "extend generator":          # a one-shot iterable is a legal Iterable[CartesianGeometry]
+        ens.extend(x for x in [CartesianGeometry(n_atoms=na), Molecule(atoms(na)), CartesianGeometry(n_atoms=na)])
+        return nc + 3
+    if k == "extend iter(ensemble)":
+        ens.extend(iter(ConformerEnsemble(atoms(na), n_conformers=2)))
+        return nc + 2
+    if k == "extend tuple":
+        ens.extend((Molecule(atoms(na)),))
+        return nc + 1
     if k == "extend empty list":
         ens.extend([])
         return nc
@@ -254,7 +263,7 @@ def h_grown_usable(nc_sel: int, na_sel: int, how: int) -> bool:
     """
     After append / extend every conformer (old and new) can be read, written as mol2/xyz and the ensemble serialises and deserialises
     with the right extents; appended molecules bring their coordinates (and partial charges), existing rows are unchanged.
-    pre: 0 <= nc_sel <= 2 and 1 <= na_sel <= 3 and 0 <= how <= 3
+    pre: 0 <= nc_sel <= 2 and 1 <= na_sel <= 3 and 0 <= how <= 5
     post: _
     """
     import molli.chem.io as mio
@@ -274,6 +283,13 @@ def h_grown_usable(nc_sel: int, na_sel: int, how: int) -> bool:
     elif how == 2:
         e.extend([m, g])
         added = [(newc, newq), (newc * 2, None)]
+    elif how == 4:
+        e.extend(x for x in (m, g))
+        added = [(newc, newq), (newc * 2, None)]
+    elif how == 5:
+        o = _content_ens(2, na)
+        e.extend(iter(o))
+        added = [(o.coords[0], o.atomic_charges[0]), (o.coords[1], o.atomic_charges[1])]
     else:
         o = _content_ens(2, na)
         e.extend(o)
@@ -310,7 +326,7 @@ def run(rep, tier):
     from engine import xh
     rep.encoded = ENCODED
     rep.models_validated = shapenp.validate()
-    rep.bounds = {"shape step": "n_conformers symbolic in [0,1000] (second ensemble likewise), n_atoms in 0..3, conformer indices symbolic; 5 constructor branches x 14 operations, one step from an arbitrary rectangular state",
+    rep.bounds = {"shape step": "n_conformers symbolic in [0,1000] (second ensemble likewise), n_atoms in 0..3, conformer indices symbolic; 5 constructor branches x 17 operations, one step from an arbitrary rectangular state",
                   "content": "real numpy, n_conformers <= 3, n_atoms <= 3: write-through (6 kinds), iteration (plain, nested, interleaved, suspended, slices), append/extend then dump + serialise"}
     rep.outside = ["numerical content of arrays under the shape model (content is checked on real numpy with concrete extents only)", "n_atoms > 3", "append/extend of a geometry whose atom count differs from the ensemble's",
                    "sequences of more than one growth step under the shape model (one inductive step; the pre-state is any rectangular state a constructor builds)"]
